@@ -445,7 +445,13 @@ func drive(ck *Check, ctx *Ctx, secs int) int {
 	results := make([]workerResult, n)
 	var wg sync.WaitGroup
 	// generous watchdog: internal deadline + grace; the check itself stops at Deadline.
-	wd := time.Duration(secs)*time.Second + 10*time.Minute
+	// (the E5 checks re-enumerate their suite once more after the deadline to regenerate
+	// mismatching cases in full; single cases of C07 take minutes on a busy machine)
+	grace := 10 * time.Minute
+	if g := 2 * time.Duration(secs) * time.Second; g > grace {
+		grace = g
+	}
+	wd := time.Duration(secs)*time.Second + grace
 	for i := 0; i < n; i++ {
 		wg.Add(1)
 		go func(i int) {
